@@ -2,6 +2,7 @@ CONSTANTS
   Model = "geo"
   MaxSteps = 3
   Hist = TRUE
+  AllowDie = FALSE
   TransOnlyAsserted = FALSE
   TransOutOnly = FALSE
   NoInverseOfInferred = FALSE
